@@ -1,4 +1,5 @@
 import Panacea.Model.App
+import Panacea.Generated.Facts
 /-!
 # C10 — Restart equivalence: committed state survives, uncommitted work leaves no trace  (partial)
 
@@ -10,10 +11,17 @@ That *the real application* has no such state is the substance, and it is carrie
 * the `restart` stream: the real application on one database, stopped and re-opened after Commit, after
   BeginBlock, after every prefix of a block's transactions and after EndBlock, compared (height, app hash,
   store dumps, hashes of all later blocks) with a twin that never stopped.
+* `upgrade_handlers_touch_only_block_state` (over the regenerated table `Generated.handlerMemoryCalls`): inside the
+  upgrade handlers no keeper, params subspace or module-manager method is called without the block context — running
+  a handler leaves nothing in the process that a restarted process would lack (F24 was exactly such a call);
 **Cannot be exhibited by a model:** durability of IAVL / the database, `LoadLatestVersion`.
 -/
 namespace Panacea.C10
 open Panacea.App
+
+/-- Running an upgrade handler changes block state only: its closure calls nothing on the application's long-lived
+objects without passing the block context (regenerated from `app/upgrades/*` on every run). -/
+theorem upgrade_handlers_touch_only_block_state : Panacea.Generated.handlerMemoryCalls = [] := by decide
 
 variable {S B : Type}
 
